@@ -5,7 +5,7 @@ EXTENDS Electrolytes
 (* part 1 alphabets: triples <<m, e, z>> *)
 Tri(Ms, Es, Zs) == { <<m, e, z>> : m \in Ms, e \in Es, z \in Zs }
 Ch_q == { <<1, 0, 1>>, <<1, 0, -1>>, <<2, 0, -1>>, <<1, 0, 2>>, <<1, 0, -2>>, <<2, 0, 3>>,
-          <<1, -12, 1>>, <<1, -12, -2>>, <<3, -6, -3>>, <<5, -3, 4>> }
+          <<1, -12, 1>>, <<1, -12, -2>>, <<3, -6, -3>>, <<5, -3, 4>>, <<0, 0, 1>> }
 Ch_t == Tri({1, 2}, {-12, 0}, {-3, -2, -1, 1, 2, 4})
 Ch_w == Tri({0, 1, 999}, {-12, -6, 0}, -4..4)
 Ch_s == Tri({1, 2}, {0}, {-1, 1}) \cup {<<1, 0, 2>>, <<1, 0, -2>>, <<1, -12, 1>>, <<3, -6, -3>>}
@@ -78,6 +78,8 @@ Salts == { [nus |-> <<Q(1), Q(1)>>, zs |-> <<Q(1), Q(-1)>>, pm |-> <<400, 300>>]
            [nus |-> <<Q(1), Q(-1)>>, zs |-> <<Q(1), Q(1)>>, pm |-> <<900, 425>>],
            [nus |-> <<Q(1), Q(1), Q(2)>>, zs |-> <<Q(1), Q(1), Q(-1)>>, pm |-> <<900, 425, 300>>],
            [nus |-> <<Q(2), Q(1), Q(1)>>, zs |-> <<Q(1), Q(-1), Q(-1)>>, pm |-> <<400, 300, 1200>>],
+           \* a listed species that does not take part (nu = 0)
+           [nus |-> <<Q(1), Q(0), Q(2)>>, zs |-> <<Q(2), Q(3), Q(-1)>>, pm |-> <<800, 900, 300>>],
            \* fractional stoichiometry
            [nus |-> <<R(1, 2), Q(1)>>, zs |-> <<Q(2), Q(-1)>>, pm |-> <<800, 300>>] }
 (* Cs: linear coefficients of the extended product (default 0), Cds: of the Davies product (default *)
